@@ -1,7 +1,7 @@
 (* Props/C14.v — Graceful shutdown: in-flight requests finish, nothing new starts, waiter woken.
    Only statements.  Models: Async/WaitGroup.v (WaitGroupFuture / TaskToken of src/async_io/util.rs, with a
    token drop forced into each window of poll) and Async/Conn.v (Token::run with the stop listener). *)
-From FV Require Import Base.Bytes Async.WaitGroup Async.SyncTargets Async.SyncProofs Async.Conn.
+From FV Require Import Base.Bytes Parser.ReqModel Parser.StreamModel Async.Conn Async.ConnWrites Async.ConnTotal Async.ConnReads Async.LoopTargets2 Async.LoopProofs2 Async.WaitGroup Async.SyncTargets Async.SyncProofs.
 
 (* the representation invariant holds after every history, for every number of tokens and every
    placement of token drops into the windows of WaitGroupFuture::poll *)
@@ -39,3 +39,33 @@ Example C14_example :
   (* one token; its drop lands between Weak::upgrade and the waker registration: Pending, but woken *)
   wg_poll 2 1 (wg_init 1) = (false, mkWG 0 true false 1, 0).
 Proof. reflexivity. Qed.
+
+(* ==== pinned from the proof files (tools/write_props.py) ==== *)
+
+(* 'in-flight requests complete': nothing inside a request looks at the stop listener - a handler run that
+   completes without a shutdown request completes in exactly the same way (same result, same request state,
+   same bytes read and written, same observations) whenever and however often shutdown is requested meanwhile *)
+Theorem C14_inflight_handler_completes :
+  forall (maxc : N) (f : nat) (script : list N) (r : rstate) (w1 w2 : world) (x : (N * N + N) * rstate)
+    (w1' : world),
+  same_mod_stop w1 w2 ->
+  run_handler maxc f script r w1 = Ok x w1' ->
+  exists w2' : world, run_handler maxc f script r w2 = Ok x w2' /\ same_mod_stop w1' w2'.
+Proof. exact handler_ignores_stop. Qed.
+
+(* ... and Request::close writes the same complete epilogue and takes the same reuse decision *)
+Theorem C14_inflight_close_completes :
+  forall (maxc : N) (r : rstate) (d c : N) (w1 w2 : world) (x : parser + N) (w1' : world),
+  same_mod_stop w1 w2 ->
+  do_close maxc r d c w1 = Ok x w1' ->
+  exists w2' : world, do_close maxc r d c w2 = Ok x w2' /\ same_mod_stop w1' w2'.
+Proof. exact close_ignores_stop. Qed.
+
+(* a request blocked on its client is not aborted by the shutdown either: it keeps waiting *)
+Theorem C14_blocked_request_keeps_waiting :
+  forall (maxc : N) (f : nat) (script : list N) (r : rstate) (w1 w2 w1' : world),
+  same_mod_stop w1 w2 ->
+  run_handler maxc f script r w1 = Halt ODeadlock w1' ->
+  exists w2' : world, run_handler maxc f script r w2 = Halt ODeadlock w2' /\ same_mod_stop w1' w2'.
+Proof. exact handler_block. Qed.
+
